@@ -852,7 +852,8 @@ Qed.
    RoundTripML.wl_value_layout and the layouts etextn d of the placeables) allows far more than the choices of
    Render.v: ANY number of blank lines (each with any number of spaces) at the start and between entries (at least
    the number the grammar requires after a stand-alone comment), any number of spaces around '=', any indentation
-   >= 1 of attribute lines and of the continuation lines of a value (the same for all lines of the value), a value
+   >= 1 of attribute lines and of the continuation lines of a value (the same for all lines of the value), any number
+   of spaces on a blank line inside a value, a value
    that starts on the line of the '=' (only if one of its continuation lines is not indented deeper than its first
    line, or it has one line) or on a later line (only if its first byte is not a dot, an opening bracket or an asterisk), blanks of any length (spaces, line breaks) inside braces,
    brackets and parentheses, LF or CRLF at every line end, with or without a final line end *)
